@@ -769,9 +769,10 @@ def run_case(case, ctx):
         L = an.total_hi
         K = np.maximum(2, an.runs)
         tol = K * an.dt + atol
-        key_cls = "%s:cell-chord:%s" % (geom, r["cls"])
-        key_tot = "%s:total-chord:%s" % (geom, r["cls"])
-        key_per = "%s:periodicity:%s" % (geom, r["cls"])
+        rk = "generic-ray" if r["cls"] in ("random", "inside", "miss") else "hostile-ray"     # the exact class is in the detail
+        key_cls = "%s:cell-chord:%s" % (geom, rk)
+        key_tot = "%s:total-chord:%s" % (geom, rk)
+        key_per = "%s:periodicity:%s" % (geom, rk)
         r["key_act"] = None
         if an.tangent_inner:
             # mechanism of its own (raysect CSG, see known findings): keep judging, but under a dedicated key
@@ -779,12 +780,12 @@ def run_case(case, ctx):
             ctx.mon("tangent_to_inner_surface")
         r["key_per"] = key_per
         if L == 0.0:
-            ctx.check(bool(np.all(E == 0.0)), "%s:miss-nonzero:%s" % (geom, r["cls"]), "a ray that misses the object has non-zero entries",
-                      monitor="miss", total=float(E.sum()))
+            ctx.check(bool(np.all(E == 0.0)), "%s:miss-nonzero" % geom, "a ray that misses the object has non-zero entries",
+                      monitor="miss", total=float(E.sum()), ray_cls=r["cls"])
             continue
         good = _interval_check(ctx, "cell", key_cls,
                                "matrix entry differs from the exact chord length in its cell by more than max(2, visits) integration steps",
-                               Ecell, an.lo, an.hi, tol, dt=an.dt, ray=i, o_local=r["o"].tolist(), d_local=r["d"].tolist(),
+                               Ecell, an.lo, an.hi, tol, dt=an.dt, ray=i, ray_cls=r["cls"], o_local=r["o"].tolist(), d_local=r["d"].tolist(),
                                segments=an.segments)
         exceed2 = np.maximum(np.maximum(an.lo - Ecell, Ecell - an.hi), 0.0) > 2 * an.dt + atol
         if good and exceed2.any():
@@ -792,7 +793,7 @@ def run_case(case, ctx):
         t_tol = 1e-7 * L + atol
         _interval_check(ctx, "total", key_tot,
                         "entries of the all-active map do not sum to the chord length inside the bounding primitive",
-                        np.array([Ecell.sum()]), an.total_lo, an.total_hi, t_tol, ray=i, segments=an.segments, dt=an.dt)
+                        np.array([Ecell.sum()]), an.total_lo, an.total_hi, t_tol, ray=i, ray_cls=r["cls"], segments=an.segments, dt=an.dt)
         if an.dropped_short:
             ctx.mon("short_segment_may_be_skipped", an.dropped_short)
         if (an.lo > an.dt).any() and an.dt > 0:
@@ -832,13 +833,13 @@ def run_case(case, ctx):
             # (i) the rotated ray must satisfy the same exact chord bounds (they are periodic in phi)
             _interval_check(ctx, "periodicity_chords", r["key_per"] + ":rotated-ray-vs-exact-chords" if r["key_per"] != TANGENT_KEY else TANGENT_KEY,
                             "entries of the ray rotated by a multiple of the period differ from the exact chord lengths of the unrotated ray "
-                            "by more than max(2, visits) integration steps", E3, an.lo, an.hi, K * an.dt + atol, ray=i, multiple=mult, dt=an.dt)
+                            "by more than max(2, visits) integration steps", E3, an.lo, an.hi, K * an.dt + atol, ray=i, ray_cls=r["cls"], multiple=mult, dt=an.dt)
             # (ii) differential: same sample points up to rounding, so only samples within rounding of a cell face can move
             #      (two faces per visit); where the ray runs along a face (wide ambiguity) only the chord bounds apply
             flips = np.where(width > 0.5 * an.dt, 2 * K, 2 * np.maximum(1, an.runs))
             _interval_check(ctx, "periodicity", r["key_per"],
                             "entries change by more than two integration steps per visit when the ray is rotated by a multiple of the period about the axis",
-                            E3, r["E"] - width, r["E"] + width, flips * an.dt + atol, ray=i, multiple=mult, dt=an.dt)
+                            E3, r["E"] - width, r["E"] + width, flips * an.dt + atol, ray=i, ray_cls=r["cls"], multiple=mult, dt=an.dt)
 
     # ---------------- voxel map with -1 / merged / unused sources ------------------------------------------
     path = case["path"]
